@@ -175,7 +175,30 @@ func C17(tier string) int {
 	run := h.NewRun("C17", tier, "exploration", "", 20*time.Minute)
 	codes := []int{421, 450, 451, 452, 500, 501, 550, 552, 554}
 	msgs := []string{"", "plain text", " leading space", "trailing space ", "5.1.1 looks like a code", "2.0.0", "non-ASCII: pelé €", "line one\nline two", "one\ntwo\nthree", "first\n\nthird", "a\n5.7.1 b", "tab\there", "   "}
-	run.Rule = fmt.Sprintf("reply codes %v x enhanced code {set (class.7.1), EnhancedCodeNotSet, NoEnhancedCode} x %d message shapes (empty, leading/trailing space, text that looks like an enhanced code, non-ASCII, 1-3 lines, empty middle line, blank) x callback {NewSession, Mail, Rcpt, Data}, plus non-SMTPError errors per callback x message shapes; each a real-client <-> real-server conversation. Distinct by construction; non-trivial = all. Oracle: wire reply (strict parser) and the client's returned *SMTPError both equal the backend's error (X.0.0 for an unset code, zero value for NoEnhancedCode); other errors => 451 (envelope) / 554 (data) with their text.", codes, len(msgs))
+	// all messages of 1..3 lines over a small set of line shapes (the hand-picked ones above stay)
+	lineShapes := []string{"", "x", " x", "x ", "5.1.1 y", "  ", "t\ty"}
+	seenMsg := map[string]bool{}
+	for _, m := range msgs {
+		seenMsg[m] = true
+	}
+	var recLines func(cur []string)
+	recLines = func(cur []string) {
+		if len(cur) > 0 {
+			m := strings.Join(cur, "\n")
+			if !seenMsg[m] {
+				seenMsg[m] = true
+				msgs = append(msgs, m)
+			}
+		}
+		if len(cur) == 3 {
+			return
+		}
+		for _, l := range lineShapes {
+			recLines(append(append([]string(nil), cur...), l))
+		}
+	}
+	recLines(nil)
+	run.Rule = fmt.Sprintf("reply codes %v x enhanced code {set (class.7.1), EnhancedCodeNotSet, NoEnhancedCode} x %d message shapes (hand-picked: empty, leading/trailing space, text that looks like an enhanced code, non-ASCII, 1-3 lines, empty middle line, blank; plus ALL messages of 1-3 lines over the line shapes {empty, 'x', ' x', 'x ', '5.1.1 y', blanks, tab}) x callback {NewSession, Mail, Rcpt, Data}, plus non-SMTPError errors per callback x message shapes; each a real-client <-> real-server conversation. Distinct by construction; non-trivial = all. Oracle: wire reply (strict parser) and the client's returned *SMTPError both equal the backend's error (X.0.0 for an unset code, zero value for NoEnhancedCode); other errors => 451 (envelope) / 554 (data) with their text.", codes, len(msgs))
 	run.Assumptions = []string{"NoEnhancedCode combined with text that itself parses as an enhanced code is inherently ambiguous on the wire: only the reply code is judged there", "a generic Data error may be prefixed ('Error: transaction failed: ')"}
 	var cases []C17Case
 	for _, cb := range []string{"NewSession", "Mail", "Rcpt", "Data"} {
